@@ -45,6 +45,12 @@ FLAVOUR = {
    B. COMPATIBILITY / DEPRECATION work: replace an API that is deprecated or behaves differently across Python versions or platforms (datetime.utcnow / utcfromtimestamp, asyncio.get_event_loop / ensure_future / wait_for, cgi / email / urllib helpers, os.path vs pathlib, locale-dependent functions, typing changes, `str.removeprefix`, dict-order assumptions, Windows path separators / case-insensitive file systems, `time.time()` vs monotonic clocks) by its modern or portable equivalent - which is subtly not equivalent for some legal input the property covers.
    C. API ERGONOMICS: make the public API friendlier - accept more input types (coerce with str() / int() / bytes()), add a sensible-looking default, return a richer object, normalise or pretty-print output (sorted keys, canonical case, trimmed whitespace, stable ordering), make a method idempotent or chainable, add `__eq__`/`__hash__`/`__repr__`/`__bool__`/`__len__` - and thereby change what existing legal callers observe in a specific situation.
  Ordinary everyday use must keep working - do NOT make a change that the first simple request would expose.""",
+ 13: """This round is about the code that earlier changes left alone. Over 700 earlier changes went mostly into datastructures.py, responses.py, routing.py, staticfiles.py, multipart*.py, websocket.py and the request / response / staticfiles modules of the two interfaces. Hardly touched so far: baize/wsgi/shortcut.py, baize/asgi/shortcut.py, baize/asgi/helper.py, baize/concurrency.py, baize/exceptions.py, baize/utils.py, baize/requests.py (the mixin shared by both interfaces), baize/typing.py and the package __init__ files (what is exported under which name).
+ Make three changes, each a realistic maintainer commit, following this preference order:
+   1. a change in one of those hardly-touched files through which the property breaks (exception classes and their status codes / headers / content, the decorators and shortcuts, cached_property / other helpers in utils.py, the thread-pool and async helpers in concurrency.py, send_http_start / send_http_body / empty_receive in asgi/helper.py, the header accessors of the shared request mixin, names re-exported by a package);
+   2. if the property's code really cannot be influenced from there: a FUNCTION, BRANCH or DEFAULT ARGUMENT of its own files that none of the earlier ideas listed below went through (read the list, then read the code for what is missing from it);
+   3. a change that ADDS a new helper / class / module and routes existing code through it, with the defect in the new code.
+ Say at the top of each section of NOTES.md which of 1/2/3 it is. Ordinary everyday use must keep working - do NOT make a change that the first simple request would expose.""",
  5: """This round is about interactions; make three changes, each of which needs TWO things at once to show (neither alone exposes it): e.g. a feature used through a second public entry point, inside a mount or middleware, on the second use of an object, with a particular header present, with a particular chunking AND a particular content, on one interface only AND only for one method. Ordinary everyday use must keep working - do NOT make a change that the first simple request would expose.""",
 }
 
